@@ -15,6 +15,7 @@ import (
 	"errors"
 	"fmt"
 	"io"
+	"math/big"
 	"sync"
 	"testing"
 
@@ -81,6 +82,39 @@ type ctxFields struct {
 	seq            []byte
 }
 
+func (f *ctxFields) marshal() []byte {
+	b := []byte{f.role}
+	b = binary.BigEndian.AppendUint16(b, f.kem)
+	b = binary.BigEndian.AppendUint16(b, f.kdf)
+	b = binary.BigEndian.AppendUint16(b, f.aead)
+	for _, p := range [][]byte{f.exp, f.key, f.bn, f.seq} {
+		b = append(b, byte(len(p)))
+		b = append(b, p...)
+	}
+	return b
+}
+
+// structuredSeqs are the sequence numbers at which restored contexts are continued: around every byte boundary, around
+// 2^32 and 2^64, the top bit and the end of the 96-bit range.
+func structuredSeqs() []*big.Int {
+	one := big.NewInt(1)
+	pow := func(k uint) *big.Int { return new(big.Int).Lsh(one, k) }
+	out := []*big.Int{big.NewInt(0), one}
+	for k := uint(8); k < 96; k += 8 {
+		out = append(out, new(big.Int).Sub(pow(k), one), pow(k))
+	}
+	for _, k := range []uint{32, 64} {
+		for d := int64(-3); d <= 3; d++ {
+			out = append(out, new(big.Int).Add(pow(k), big.NewInt(d)))
+		}
+	}
+	out = append(out, pow(95), new(big.Int).Add(pow(95), one))
+	for d := int64(1); d <= 4; d++ {
+		out = append(out, new(big.Int).Sub(pow(96), big.NewInt(d)))
+	}
+	return out
+}
+
 func parseCtx(raw []byte) (*ctxFields, error) {
 	if len(raw) < 7 {
 		return nil, errors.New("short context")
@@ -123,6 +157,7 @@ type hcase struct {
 	Negs             []string
 	NegSel           byte   // selects how a parameter is altered / which other mode is used
 	EncBit           int    // bit of enc flipped by the "enc" negative relation (reduced mod 8*len(enc))
+	Seq              []byte // 12-byte sequence number at which restored copies of both contexts continue
 	Rd               string // how the io.Reader hands out the encapsulation randomness: whole, one, half, chunks
 	RdSeed           uint64
 	Src              string
@@ -131,7 +166,7 @@ type hcase struct {
 func (c *hcase) String() string {
 	s := fmt.Sprintf("kem=%#04x kdf=%d aead=%d mode=%s ikmR=%x ikmS=%x ikmE=%x ikmO=%x info=%s psk=%s psk_id=%s negs=%v negsel=%d",
 		c.S.KEM, c.S.KDF, c.S.AEAD, modeName[c.Mode], c.IkmR, c.IkmS, c.IkmE, c.IkmO, hx(c.Info), hx(c.Psk), hx(c.PskID), c.Negs, c.NegSel)
-	s += fmt.Sprintf(" encbit=%d reader=%s/%d", c.EncBit, c.Rd, c.RdSeed)
+	s += fmt.Sprintf(" encbit=%d reader=%s/%d restored-seq=%x", c.EncBit, c.Rd, c.RdSeed, c.Seq)
 	for _, m := range c.Msgs {
 		s += fmt.Sprintf(" msg(pt=%d B, aad=%d B)", len(m[0]), len(m[1]))
 	}
@@ -147,7 +182,7 @@ func (c *hcase) replay() map[string]interface{} {
 }
 
 func (c *hcase) hashParts() [][]byte {
-	p := [][]byte{{byte(c.S.KEM >> 8), byte(c.S.KEM), byte(c.S.KDF), byte(c.S.AEAD), byte(c.Mode), c.NegSel, byte(c.EncBit), byte(c.EncBit >> 8), byte(c.RdSeed)}, []byte(c.Rd), c.IkmR, c.IkmS, c.IkmE, c.IkmO, c.Info, c.Psk, c.PskID}
+	p := [][]byte{{byte(c.S.KEM >> 8), byte(c.S.KEM), byte(c.S.KDF), byte(c.S.AEAD), byte(c.Mode), c.NegSel, byte(c.EncBit), byte(c.EncBit >> 8), byte(c.RdSeed)}, []byte(c.Rd), c.Seq, c.IkmR, c.IkmS, c.IkmE, c.IkmO, c.Info, c.Psk, c.PskID}
 	for _, n := range c.Negs {
 		p = append(p, []byte(n))
 	}
@@ -460,6 +495,51 @@ func evalCase(c *hcase, rep reporter) bool {
 			}
 		}
 	}
+	// ---- restored contexts: copies of both contexts continued at a structured sequence number through the documented
+	// serialisation; every ciphertext must be AEAD.Seal(key, base_nonce XOR I2OSP(seq, Nn), pt, aad) as the reference computes it
+	if c.Seq != nil {
+		fS, e1 := parseCtx(mb(sealer))
+		fO, e2 := parseCtx(mb(opener))
+		if e1 != nil || e2 != nil {
+			return rep("C07/restored/marshal-layout", fmt.Sprintf("%v %v; case %s", e1, e2, c))
+		}
+		fS.seq, fO.seq = append([]byte{}, c.Seq...), append([]byte{}, c.Seq...)
+		sl2, e1 := hpke.UnmarshalSealer(fS.marshal())
+		op2, e2 := hpke.UnmarshalOpener(fO.marshal())
+		if e1 != nil || e2 != nil {
+			return rep("C07/restored/unmarshal-error", fmt.Sprintf("%v %v; case %s", e1, e2, c))
+		}
+		rS3, rR3 := *rS, *rR
+		rS3.Seq, rR3.Seq = new(big.Int).SetBytes(c.Seq), new(big.Int).SetBytes(c.Seq)
+		vlib.Class(sub, "restored-seq="+seqClass(rS3.Seq))
+		for i := 0; i < 3; i++ {
+			pt, aad := []byte(fmt.Sprintf("restored %d", i)), []byte{byte(i)}
+			if i < len(c.Msgs) {
+				pt, aad = c.Msgs[i][0], c.Msgs[i][1]
+			}
+			want, werr := rS3.Seal(aad, pt)
+			ct, err := sl2.Seal(pt, aad)
+			ct = take(ct)
+			if (err == nil) != (werr == nil) {
+				return rep("C07/restored/seal-verdict", fmt.Sprintf("message %d after restoring at seq %x: circl err=%v, RFC 9180 err=%v; case %s", i, c.Seq, err, werr, c))
+			}
+			if err != nil {
+				vlib.Class(sub, "restored:message-limit-reached")
+				break
+			}
+			if !bytes.Equal(ct, want) {
+				return rep(fmt.Sprintf("C07/restored/aead%d/ciphertext", c.S.AEAD), fmt.Sprintf("message %d after restoring at seq %x: circl %s, RFC 9180 (nonce = base_nonce XOR I2OSP(seq, Nn)) %s; case %s", i, c.Seq, vlib.Hex(ct), vlib.Hex(want), c))
+			}
+			got, err := op2.Open(ct, aad)
+			if err != nil || !bytes.Equal(got, pt) {
+				return rep("C07/restored/open", fmt.Sprintf("message %d after restoring at seq %x: err=%v; case %s", i, c.Seq, err, c))
+			}
+			got, err = rR3.Open(aad, ct)
+			if err != nil || !bytes.Equal(got, pt) {
+				return rep("C07/restored/reference-opens", fmt.Sprintf("message %d after restoring at seq %x: err=%v; case %s", i, c.Seq, err, c))
+			}
+		}
+	}
 	honestExport := take(sealer.Export(negExportCtx, negExportLen))
 	if !bytes.Equal(honestExport, rS.Export(negExportCtx, negExportLen)) {
 		return rep("C07/export/value", fmt.Sprintf("fixed export differs; case %s", c))
@@ -582,6 +662,25 @@ func clampX(kemID uint16, sk []byte) []byte {
 	return o
 }
 
+func seqClass(v *big.Int) string {
+	n := v.BitLen()
+	switch {
+	case n <= 1:
+		return "0..1"
+	case n <= 32:
+		return "<2^32"
+	case n == 33:
+		return "2^32.."
+	case n <= 64:
+		return "<2^64"
+	case n == 65:
+		return "2^64.."
+	case n <= 95:
+		return "<2^95"
+	}
+	return ">=2^95"
+}
+
 func lenClass(n int) string {
 	switch {
 	case n == 0, n == 1, n == 15, n == 16, n == 17, n == 1000:
@@ -687,6 +786,15 @@ func drawCase(t *rapid.T, kemID uint16) *hcase {
 	default:
 		c.EncBit = rapid.IntRange(0, nenc-1).Draw(t, "encbit")
 	}
+	if rapid.IntRange(0, 3).Draw(t, "seqKind") == 0 {
+		c.Seq = make([]byte, 12)
+		vlib.FillRandom(t, c.Seq, "seq")
+		if bytes.Equal(c.Seq, bytes.Repeat([]byte{0xff}, 12)) {
+			c.Seq[11] = 0xfe
+		}
+	} else {
+		c.Seq = rapid.SampledFrom(structuredSeqs()).Draw(t, "seq").FillBytes(make([]byte, 12))
+	}
 	c.Rd = rapid.SampledFrom([]string{"whole", "one", "half", "chunks"}).Draw(t, "reader")
 	c.RdSeed = uint64(rapid.Uint16().Draw(t, "readerSeed"))
 	fixOther(c)
@@ -752,6 +860,8 @@ func sweepCase(s rhpke.Suite, mode int, j int) *hcase {
 	c.EncBit = 8*rhpke.KEMByID(s.KEM).Nenc - 1 - (int(sel[2])%3)*(int(sel[3])+1)
 	c.Rd = []string{"whole", "one", "half", "chunks"}[(int(sel[5])+j+mode)%4]
 	c.RdSeed = uint64(sel[6])
+	sq := structuredSeqs()
+	c.Seq = sq[(int(sel[7])*7+int(s.AEAD)*13+mode*5+j)%len(sq)].FillBytes(make([]byte, 12))
 	fixOther(c)
 	return c
 }
